@@ -134,7 +134,7 @@ func runMiniGoSpec(c *Ctx, progs []*Prog, maxCh int, tag string) *mgBatch {
 			writeJSON(filepath.Join(dir, "progs.json"), recs)
 			cfg := fmt.Sprintf("SPECIFICATION MSpec\nCONSTANTS ProgFile = \"progs.json\"\nCONSTRAINT ChBound\nINVARIANTS ScopesNonEmpty HeapRefsDefined DoneIsClean Emit\nCHECK_DEADLOCK FALSE\n")
 			must(os.WriteFile(filepath.Join(dir, "MC_MiniGo.cfg"), []byte(cfg), 0o644))
-			mc := fmt.Sprintf("---- MODULE MC_MiniGo ----\nEXTENDS MiniGo\nChBound == Len(st.ch) <= %d /\\ Len(st.out) <= 400\n====\n", maxCh)
+			mc := fmt.Sprintf("---- MODULE MC_MiniGo ----\nEXTENDS MiniGo\nChBound == Len(st.ch) <= %d /\\ Len(st.out) <= 400 /\\ st.steps <= 30000\n====\n", maxCh)
 			must(os.WriteFile(filepath.Join(dir, "MC_MiniGo.tla"), []byte(mc), 0o644))
 			r := sub.runTLC(dir, TLCOpts{Module: "MC_MiniGo", Cfg: "MC_MiniGo.cfg", Workers: 4, HeapMB: 6000, Timeout: c.pickDur(8, 40), AllowError: true})
 			if r.ExitCode != 0 {
